@@ -264,8 +264,18 @@ pub fn snap_at(sec: i64) -> SnapshotFile {
 
 /// full check (read data) -> Ok(true) if clean
 pub fn check_clean(repo: &Repo) -> RusticResult<bool> {
+    Ok(check_errors(repo)?.is_empty())
+}
+
+/// messages of the error-level findings of a full check
+pub fn check_errors(repo: &Repo) -> RusticResult<Vec<String>> {
     let res = repo.check(CheckOptions::default().read_data(true))?;
-    Ok(res.is_ok().is_ok())
+    Ok(res
+        .0
+        .iter()
+        .filter(|(lvl, _)| format!("{lvl:?}") == "Error")
+        .map(|(_, e)| format!("{e:?}").chars().take(160).collect())
+        .collect())
 }
 
 /// all files of a snapshot with their content, through the real read path (ls + dump)
